@@ -247,8 +247,8 @@ def detached_scales(chk):
         if not mi.rel.startswith("optimum/"):
             continue
         for fn in [x for x in ast.walk(mi.tree) if isinstance(x, ast.FunctionDef)]:
-            if not any(isinstance(x, ast.Attribute) and x.attr in names and isinstance(x.ctx, ast.Store) for x in ast.walk(fn)):
-                continue
+            if not any(isinstance(x, ast.Attribute) and x.attr in names for x in ast.walk(fn)):
+                continue  # (an in-place `buffer.copy_(v)`, directly or through a setter procedure, reads the attribute: the path engine reports it as a store)
             decorated = any(U(d).startswith("torch.no_grad") for d in fn.decorator_list)
             seen = set()
             for p in paths_of(fn):
